@@ -75,10 +75,35 @@ class World:
             if isinstance(e, ast.Call) and t.startswith("NatalStackFrame."):
                 return None
             if extra is not None:
-                return extra(e, me)
+                try:
+                    return extra(e, me)
+                except Unknown:
+                    pass
+            if isinstance(e, ast.Call) and u(e.func) == "Int" and len(e.args) == 1 and not e.keywords:
+                v = me.ev(e.args[0])
+                if isinstance(v, int) and not isinstance(v, bool):
+                    return self.int_literal(v)
+            if isinstance(e, ast.Call) and u(e.func) == "TernaryExpr" and len(e.args) == 6:
+                a = [me.ev(x) for x in e.args]
+                t = Sym("expr:ternary", attrs={"$isa": {"Expr", "TernaryExpr"}})
+                t.methods["__teal__"] = lambda options, a=a: self.run_teal("TernaryExpr", {"op": a[0], "outputType": a[2], "firstArg": a[3], "secondArg": a[4], "thirdArg": a[5]}, options)[0]
+                t.methods["type_of"] = lambda a=a: a[2]
+                t.methods["has_return"] = lambda: False
+                return t
             raise Unknown()
 
         return o
+
+    def int_literal(self, v: int):
+        """an Int(v) child: lowers to `int v`, carries .value, is an instance of Int"""
+        c = Sym(f"expr:Int({v})", attrs={"$isa": {"Expr", "Int", "LeafExpr"}, "value": v, "stack_frames": None, "trace": None})
+
+        def teal(options, v=v):
+            b = self.simple_block([OpVal("int", [v])])
+            return (b, b)
+
+        c.methods.update({"__teal__": teal, "type_of": lambda: self.TT.attrs["uint64"], "has_return": lambda: False})
+        return c
 
     def run_teal(self, cls_name: str, self_attrs: Dict[str, Any], options: Sym, module: Optional[str] = None, extra=None, method: str = "__teal__", self_methods: Optional[Dict[str, Any]] = None):
         c = self.model.find_class(cls_name, module)
